@@ -451,6 +451,8 @@ type nodeDB struct {
 	db      dbm.DB
 	batch   dbm.Batch
 	orphans map[string]struct{}
+	// nodes put into batch; they enter the (database-wide) node cache once the batch is written
+	saved []*Node
 }
 
 func newNodeDB(db dbm.DB, sync bool) *nodeDB {
@@ -544,7 +546,10 @@ func (ndb *nodeDB) SaveNode(t *Tree, node *Node) {
 		ndb.batch.Set(k, types.Encode(data))
 	}
 	node.persisted = true
-	ndb.cacheNode(node)
+	// not cached yet: the cache is shared by every tree of this database, and a node whose children
+	// are not in the database yet must not be served to readers of an already committed root with
+	// the same hash (with EnableMavlPrefix the root hash does not determine the children's keys)
+	ndb.saved = append(ndb.saved, node)
 	delete(ndb.orphans, string(node.hash))
 }
 
@@ -703,6 +708,10 @@ func (ndb *nodeDB) Commit() error {
 
 	// Write saves
 	dbm.MustWrite(ndb.batch)
+	for _, node := range ndb.saved {
+		ndb.cacheNode(node)
+	}
+	ndb.saved = nil
 
 	ndb.batch = nil
 	ndb.orphans = make(map[string]struct{})
